@@ -26,7 +26,7 @@ Act_C02 == [][IsStep => C02_Step(w, ev', w')]_vars
 Act_C03 == [][IsStep => C03_Step(w, ev', w', obs)]_vars
 Act_C04 == [][IsStep => C04_Step(w, ev', w', obs, obs')]_vars
 Act_C05 == [][IsStep => C05_Step(w, ev', w', obs, obs')]_vars
-Act_C06 == [][IsStep => C06_Step(w, ev', w', obs)]_vars
+Act_C06 == [][IsStep => C06_Step(w, ev', w', obs, obs')]_vars
 Act_C07 == [][IsStep => C07_Step(w, ev', w')]_vars
 Act_C08 == [][IsStep => C08_Step(w, ev', w')]_vars
 Act_C09 == [][IsStep => C09_Step(w, ev', w')]_vars
